@@ -16,7 +16,12 @@ BOUND = ("networks with <= 6(7) variables (exhaustive 1-variable, sampled 2-vari
          "(bfs, dfs, target: identical diagrams; minimal-space, attractor-seed: True + postcondition; attractor query: identical seeds); (fault) the k-th clingo solve() call "
          "(k in 1..12) raises inside a seeded history of <= 3 calls: invariants after the failure, then full expansion compared with a fresh one; (shallower) networks "
          "with diagrams of depth >= 2 (unions of bistable modules, nested switches, latch DAGs): a partial expansion followed by a level-limited bfs (from the root or a "
-         "child) whose limit 0..2 is shallower than what is already expanded, as a 'history' case (a True return is held to its contract)")
+         "child) whose limit 0..2 is shallower than what is already expanded, as a 'history' case (a True return is held to its contract); (limited) 2-4 independent bistable "
+         "modules (+ downstream latch / gated oscillator) and the networks of (shallower): a limited prefix followed by dfs with stack limit 0..4 or attractor-seed expansion with size limit "
+         "1..8(12), as 'history' cases; (tight) motif-avoidant networks with <= 8 variables (core / xnor module alone, with an independent module, block-structured and input-conditioned "
+         "families): expand_block (source shortcuts on/off, exact on/off) or build() under attractor_candidates_limit in {1,2,3,4,6} x retained_set_optimization_threshold in {0,1,2,(3),1000} "
+         "(seeded: further non-default budgets), cached data checked, then an attractor query in every expanded node under the tight limits, cached data checked again, then the limits "
+         "are lifted, the call repeated and the seeds of all expanded nodes compared with brute force (every attractor exactly once)")
 RULE = "non-trivial = at least one call stopped early (returned False or raised a limit error)"
 CASE_TIMEOUT = 60.0
 
@@ -39,9 +44,10 @@ def shape_cases(seed, tier):
 def limit_cases(seed, tier):
     """(limited): several independent bistable modules x 'limited prefix, then a stack-limited dfs / a size-limited attractor-seed expansion' as history cases."""
     fixed = families.limited_dfs_histories() + families.limited_aseeds_histories()
-    for k, (name, bnet) in enumerate(families.interleave((families.limit_nets(seed, tier), 1), (families.deep_nets(seed, tier), 1))):
+    nets = families.interleave(((("limit", n, b) for n, b in families.limit_nets(seed, tier)), 1), ((("deep", n, b) for n, b in families.deep_nets(seed, tier)), 1))
+    for k, (src, name, bnet) in enumerate(nets):
         names = families.variables(bnet)
-        if name in families.LIMIT_NETS:
+        if src == "limit" and name in families.LIMIT_NETS:
             picks = fixed
         else:
             rng = random.Random(f"{seed}-{name}-c15-limited")
